@@ -511,15 +511,24 @@ func genC06(e *emitter, r *rng, tier string) {
 		if r.chance(1, 2) { // damage: malformed frame / truncated tail / surplus bytes at some position
 			pos := r.intn(k)
 			b := fs[pos].B
-			switch r.intn(4) {
+			switch r.intn(6) {
 			case 0:
 				b = mutate(r, b)
 			case 1:
 				b = b[:r.intn(len(b))]
 			case 2:
 				b = append(append([]byte(nil), b...), r.bytesN(1+r.intn(3))...)
-			default:
+			case 3:
 				b = nil
+			default:
+				// still well-framed, but one or two words shorter than its content needs: a decoder that
+				// reads past its frame would find the next frame's octets there
+				w := 1 + r.intn(2)
+				if len(b) >= 4+4*w {
+					b = append([]byte(nil), b[:len(b)-4*w]...)
+					l := len(b)/4 - 1
+					b[2], b[3] = byte(l>>8), byte(l)
+				}
 			}
 			fs[pos] = sb(b)
 		}
@@ -726,6 +735,84 @@ func genC13(e *emitter, r *rng, tier string) {
 		e.emit("mutant", opDec("TransportLayerCC", m))
 	}
 	genTwccChunkings(e, r, tier)
+	genTwccHugeCounts(e, r, tier)
+}
+
+// status counts next to 65535: eight run-length chunks of 8191 "not received", then the last few statuses
+// either as a vector chunk or as run-length chunks; both chunkings must decode to the same statuses and deltas.
+func genTwccHugeCounts(e *emitter, r *rng, tier string) {
+	n := budget(tier, 60, 2000)
+	for i := 0; i < n; i++ {
+		tail := 1 + r.intn(14) // statuses after the 65528 not-received ones
+		if 65528+tail > 65535 {
+			tail = 7
+		}
+		count := 65528 + tail
+		st := make([]uint16, tail)
+		twoBit := tail <= 7 && r.chance(1, 2)
+		for k := range st {
+			if twoBit {
+				st[k] = uint16(r.intn(3))
+			} else {
+				st[k] = uint16(r.intn(2))
+			}
+		}
+		var deltas []*rtcp.RecvDelta
+		for _, x := range st {
+			if x == 1 {
+				deltas = append(deltas, &rtcp.RecvDelta{Type: 1, Delta: 250 * int64(1+r.intn(255))})
+			} else if x == 2 {
+				deltas = append(deltas, &rtcp.RecvDelta{Type: 2, Delta: 250 * int64(r.intn(65536)-32768)})
+			}
+		}
+		var head []rtcp.PacketStatusChunk
+		for k := 0; k < 8; k++ {
+			head = append(head, &rtcp.RunLengthChunk{PacketStatusSymbol: 0, RunLength: 8191})
+		}
+		// chunking A: one vector chunk
+		var a []rtcp.PacketStatusChunk
+		if twoBit {
+			syms := make([]uint16, 7)
+			copy(syms, st)
+			a = append(append(a, head...), &rtcp.StatusVectorChunk{Type: 1, SymbolSize: 1, SymbolList: syms})
+		} else {
+			syms := make([]uint16, 14)
+			copy(syms, st)
+			a = append(append(a, head...), &rtcp.StatusVectorChunk{Type: 1, SymbolSize: 0, SymbolList: syms})
+		}
+		// chunking B: run-length chunks only
+		b := append([]rtcp.PacketStatusChunk(nil), head...)
+		for k := 0; k < tail; {
+			run := 1
+			for k+run < tail && st[k+run] == st[k] {
+				run++
+			}
+			b = append(b, &rtcp.RunLengthChunk{PacketStatusSymbol: st[k], RunLength: uint16(run)})
+			k += run
+		}
+		base := rtcp.TransportLayerCC{SenderSSRC: r.u32(), MediaSSRC: r.u32(), BaseSequenceNumber: r.u16(), PacketStatusCount: uint16(count),
+			ReferenceTime: uint32(r.bits(24)), FbPktCount: r.u8(), RecvDeltas: deltas}
+		var encs []*Sx
+		for _, cs := range [][]rtcp.PacketStatusChunk{a, b} {
+			t := base
+			t.PacketChunks = cs
+			if r.chance(1, 2) {
+				t.Header.Padding = true
+			}
+			if bb := twccBytes(&t); bb != nil {
+				// a few spare words after the deltas: the declared length may exceed the content
+				if r.chance(1, 2) {
+					bb = append(bb, make([]byte, 4*(1+r.intn(5)))...)
+					l := len(bb)/4 - 1
+					bb[0] &^= 0x20
+					bb[2], bb[3] = byte(l>>8), byte(l)
+				}
+				encs = append(encs, sb(bb))
+				e.emit("huge-count", opDec("TransportLayerCC", bb))
+			}
+		}
+		e.emit("huge-count-chunkings", sl(sy("decs"), sy("TransportLayerCC"), sl(encs...)))
+	}
 }
 
 // ---- C14 ----
